@@ -4,6 +4,7 @@ package main
 
 import (
 	"fmt"
+	"os"
 	"go/ast"
 	"go/constant"
 	"go/token"
@@ -86,6 +87,49 @@ func (env *SpecEnv) toTerm(v Value, x ast.Expr) *Term {
 	}
 	env.fail("expression %s does not denote a term (%T)", exprString(x), v)
 	return nil
+}
+
+// knownTrue / knownFalse: cheap syntactic entailment from the hypotheses of a state.
+func knownTrue(st *State, t *Term) bool {
+	if t.IsConst() {
+		return t.Val.Sign() != 0
+	}
+	if st.hypKeys[t.Key()] {
+		return true
+	}
+	switch t.Op {
+	case "and":
+		for _, a := range t.Args {
+			if !knownTrue(st, a) {
+				return false
+			}
+		}
+		return true
+	case "not":
+		return knownFalse(st, t.Args[0])
+	}
+	return false
+}
+
+func knownFalse(st *State, t *Term) bool {
+	if t.IsConst() {
+		return t.Val.Sign() == 0
+	}
+	if st.hypKeys[mkNot(t).Key()] {
+		return true
+	}
+	switch t.Op {
+	case "and":
+		for _, a := range t.Args {
+			if knownFalse(st, a) {
+				return true
+			}
+		}
+		return false
+	case "not":
+		return knownTrue(st, t.Args[0])
+	}
+	return false
 }
 
 func (env *SpecEnv) boolTerm(x ast.Expr) *Term {
@@ -448,6 +492,9 @@ func (env *SpecEnv) index(n *ast.IndexExpr) Value {
 func (env *SpecEnv) sliceOf(v Value, x ast.Expr) *SliceVal {
 	switch b := v.(type) {
 	case *SliceVal:
+		if b.reg != nil && len(env.state().subst) > 0 {
+			return substValue(b, env.state().subst).(*SliceVal)
+		}
 		return b
 	case *RefVal:
 		switch u := underlying(b.typ).(type) {
@@ -546,9 +593,18 @@ func (env *SpecEnv) call(n *ast.CallExpr) Value {
 		return v
 	case "implies":
 		need(2)
-		g := env.boolTerm(args[0])
-		if (g.IsConst() && g.Val.Sign() == 0) || env.state().hypKeys[mkNot(g).Key()] {
+		g := substitute(env.boolTerm(args[0]), env.state().subst)
+		if knownFalse(env.state(), g) {
 			return tTrue
+		}
+		if os.Getenv("VCGO_DEBUG_IMPL") != "" {
+			fmt.Fprintf(os.Stderr, "[implies] guard not known false: %s\n", trunc(g.Key(), 300))
+			for _, a := range g.Args {
+				fmt.Fprintf(os.Stderr, "    conj %s\n", trunc(a.Key(), 200))
+			}
+			for _, h := range env.state().hyps {
+				fmt.Fprintf(os.Stderr, "    hyp %s\n", trunc(h.Key(), 200))
+			}
 		}
 		return mkImplies(g, env.boolTerm(args[1]))
 	case "iff":
